@@ -110,11 +110,12 @@ func (inv *Invoice) Validate() error {
 func (inv *Invoice) ValidateWithContext(ctx context.Context) error {
 	ctx = inv.validationContext(ctx)
 
-	var exRule validation.Rule
-	exRule = validation.Skip
+	// A skip rule cannot stand in for "no extra rule": it would also skip the
+	// currency code's own validation.
+	currencyRules := []validation.Rule{validation.Required}
 	if r := inv.RegimeDef(); r != nil {
 		// regime specific additions for validation
-		exRule = currency.CanConvertInto(inv.ExchangeRates, r.Currency)
+		currencyRules = append(currencyRules, currency.CanConvertInto(inv.ExchangeRates, r.Currency))
 	}
 
 	return tax.ValidateStructWithContext(ctx, inv,
@@ -138,10 +139,7 @@ func (inv *Invoice) ValidateWithContext(ctx context.Context) error {
 		),
 		validation.Field(&inv.OperationDate),
 		validation.Field(&inv.ValueDate),
-		validation.Field(&inv.Currency,
-			validation.Required,
-			exRule,
-		),
+		validation.Field(&inv.Currency, currencyRules...),
 		validation.Field(&inv.ExchangeRates),
 		validation.Field(&inv.Preceding),
 		validation.Field(&inv.Tax),
